@@ -2,6 +2,7 @@ package c09
 
 import (
 	"fmt"
+	"runtime/debug"
 	"strconv"
 	"sync"
 	"sync/atomic"
@@ -505,6 +506,157 @@ func witnessIndexFlushFault(c *core.Ctx, db string, step int) error {
 	ask(9, 0, 1, 2, 3, 4, 5, 6, 7, 8, 10)
 	r.mseries(0, m)
 	c.Branch("witness-index-flush-fault")
+	c.NonTrivial()
+	return r.err
+}
+
+// witnessBucketRelease: one tag value `v` under five tag keys (five buckets of the tag-value dictionary), flushed.
+// Reader: GenTagValueID(tk0, v) misses in memory, takes the bucket of tk0 (loads and caches it) and is parked at
+// yield point index.kvstore.beforeBucketGet, before bucket.GetValue. Meanwhile: a new value in tk0's bucket,
+// PrepareFlush + Flush (the flush purges the bucket cache; an eviction callback that calls TrieBucket.Release puts
+// the reader's tries into the pool), then GenTagValueID(tk1..tk4, v) load the other buckets (they take tries out of
+// the pool). The reader continues. C09: it must be answered the id every other caller of (tk0, v) is answered.
+// The op line carries which bucket's id the reader answered (the model explains the answer by the content of THAT
+// bucket; without a release the model insists on the own id); the oracle key is bucket-released-under-reader.
+func witnessBucketRelease(c *core.Ctx, db string) error {
+	r, err := newRunner(c, db, 1, 0)
+	if err != nil {
+		return err
+	}
+	defer r.close()
+	r.o.tag = "bucket-release-"
+	const v, fresh, nKeys = 7, 9, 5
+	mid, _ := r.metric(0, 0)
+	var tks [nKeys]int
+	ids := map[uint32]int{}
+	for k := 0; k < nKeys; k++ {
+		tk, _ := r.tagKey(int(mid), k)
+		tks[k] = int(tk)
+	}
+	for k := 0; k < nKeys; k++ {
+		id, _ := r.tagValue(tks[k], v)
+		ids[id] = tks[k]
+	}
+	r.mprepare()
+	r.mflush()
+	if r.err != nil {
+		return r.err
+	}
+	own, _ := parseID(r.findTV(tks[0], v))
+	// no garbage collection inside the window: a collection may empty the pool (then nothing is recycled and the
+	// schedule shows nothing)
+	gc := debug.SetGCPercent(-1)
+	defer debug.SetGCPercent(gc)
+	var a string
+	var parked bool
+	func() {
+		p := newParker("index.kvstore.beforeBucketGet")
+		defer p.done()
+		var wg sync.WaitGroup
+		wg.Add(1)
+		go func() {
+			defer wg.Done()
+			defer func() {
+				if e := recover(); e != nil {
+					a = fmt.Sprintf("panic %v", e)
+				}
+			}()
+			a = idOut(r.s.genTagValue(tks[0], v))
+		}()
+		parked = p.waitParked(5 * time.Second)
+		r.tagValue(tks[0], fresh)
+		r.mprepare()
+		r.mflush()
+		for k := 1; k < nKeys; k++ {
+			r.tagValue(tks[k], v)
+		}
+		p.release()
+		wg.Wait()
+	}()
+	if !parked {
+		c.Fail("witness-not-scheduled", "brelease: the reader never reached yield point index.kvstore.beforeBucketGet")
+	}
+	other := tks[0]
+	if id, ok := parseID(a); ok {
+		if tk, known := ids[id]; known {
+			other = tk
+		}
+		if id != own {
+			c.Fail("bucket-released-under-reader", fmt.Sprintf("GenTagValueID(tag key %d, v%d) parked between the bucket cache hit and bucket.GetValue across a flush was answered id %d (the id of v%d under tag key %d); every other caller is answered %d", tks[0], v, id, v, other, own))
+			c.Branch("bucket-release-foreign-id")
+		} else {
+			c.Branch("bucket-release-own-id")
+		}
+	}
+	r.guard(fmt.Sprintf("brelease %d %d %d", tks[0], v, other), func() string { return "R=" + a })
+	// afterwards everybody is answered the own ids again (the cache was purged, buckets are loaded afresh)
+	for k := 0; k < nKeys; k++ {
+		r.tagValue(tks[k], v)
+	}
+	c.Branch("witness-bucket-release")
+	c.NonTrivial()
+	return r.err
+}
+
+// witnessSeqCacheEvict: the LRU sequence cache drops the metric before every new series, with the metric's
+// postings in every combination of tiers: mutable only; mutable + immutable; kv family + immutable (dictionary
+// still frozen after a faulted round) + mutable; kv family only; after a crash. Each time the miss branch of
+// createSeriesID must continue after the largest id in ANY tier; all old tag sets are asked for again.
+func witnessSeqCacheEvict(c *core.Ctx, db string) error {
+	r, err := newRunner(c, db, 2, 0)
+	if err != nil {
+		return err
+	}
+	defer r.close()
+	r.o.tag = "seq-evict-"
+	mid, _ := r.metric(0, 0)
+	m := int(mid)
+	mid2, _ := r.metric(0, 1)
+	m2 := int(mid2)
+	r.mprepare()
+	r.mflush()
+	ask := func(vs ...int) {
+		for _, v := range vs {
+			r.series(0, 0, 0, m, []kv{{0, v}})
+		}
+	}
+	r.ievict(0, m) // nothing cached yet
+	ask(0, 1)
+	r.series(0, 0, 1, m2, []kv{{0, 0}}) // another metric of the shard keeps its entry
+	r.series(1, 0, 0, m, []kv{{0, 7}})  // the other shard has its own cache
+	r.ievict(0, m)
+	ask(2) // mutable only
+	r.iprepare(0)
+	ask(3)
+	r.ievict(0, m)
+	ask(4, 0, 1, 2, 3) // mutable + immutable
+	r.iflushfault(0, 1) // postings committed, forward step fails: inverted and dictionary stay frozen
+	r.ievict(0, m)
+	ask(5) // kv family + mutable
+	r.iprepare(0)
+	r.ievict(0, m)
+	ask(6)
+	r.iflush(0)
+	r.ievict(0, m)
+	r.ievict(0, m) // second time: absent
+	ask(7, 0, 1, 2, 3, 4, 5, 6) // kv family (+ what the retry round left)
+	r.series(0, 0, 1, m2, []kv{{0, 1}})
+	r.series(1, 0, 0, m, []kv{{0, 8}})
+	r.mseries(0, m)
+	r.iprepare(0)
+	r.iflush(0)
+	r.crash()
+	if r.err != nil {
+		return r.err
+	}
+	r.ievict(0, m) // a recovered node starts with an empty cache
+	ask(8)
+	r.ievict(0, m)
+	ask(9, 0, 1, 2, 3, 4, 5, 6, 7, 8)
+	r.mseries(0, m)
+	r.mseries(0, m2)
+	r.mseries(1, m)
+	c.Branch("witness-seq-cache-evict")
 	c.NonTrivial()
 	return r.err
 }
